@@ -962,6 +962,95 @@ Definition tr_srv_recv_chunk (fuel : nat) (buffer : (list N)) (currBuffer : (lis
     (fun st : (list (list N)) * (list N) => let '(out, currBuffer) := st in
     Next (out, currBuffer))) else Panic.
 
+(* tars/errors.go: func Error.Error *)
+Definition tr_Error_Error (e_Message : (list N)) : ctl unit (list N) :=
+  Return e_Message.
+
+(* struct github.com/TarsCloud/TarsGo/tars/protocol/res/requestf.ResponsePacket *)
+Record go_requestf_ResponsePacket := { go_requestf_ResponsePacket_IVersion : Z;
+  go_requestf_ResponsePacket_CPacketType : Z;
+  go_requestf_ResponsePacket_IRequestId : Z;
+  go_requestf_ResponsePacket_IMessageType : Z;
+  go_requestf_ResponsePacket_IRet : Z;
+  go_requestf_ResponsePacket_SBuffer : (list Z);
+  go_requestf_ResponsePacket_SResultDesc : (list N) }.
+
+(* tars/tarsprotocol.go: func Protocol.Invoke, statements "rspPackage := requestf.ResponsePacket{}" .. "rspPackage := requestf.ResponsePacket{}" *)
+Definition tr_Invoke_rsp_init  : ctl go_requestf_ResponsePacket (list N) :=
+  let rspPackage := {|
+      go_requestf_ResponsePacket_IVersion := 0;
+      go_requestf_ResponsePacket_CPacketType := 0;
+      go_requestf_ResponsePacket_IRequestId := 0;
+      go_requestf_ResponsePacket_IMessageType := 0;
+      go_requestf_ResponsePacket_IRet := 0;
+      go_requestf_ResponsePacket_SBuffer := (@nil Z);
+      go_requestf_ResponsePacket_SResultDesc := (@nil N) |} in
+    Next rspPackage.
+
+(* tars/tarsprotocol.go: func Protocol.InvokeTimeout, statements "^" .. "rspPackage := requestf.ResponsePacket{}" *)
+Definition tr_InvokeTimeout_rsp_init  : ctl go_requestf_ResponsePacket (list N) :=
+  let rspPackage := {|
+      go_requestf_ResponsePacket_IVersion := 0;
+      go_requestf_ResponsePacket_CPacketType := 0;
+      go_requestf_ResponsePacket_IRequestId := 0;
+      go_requestf_ResponsePacket_IMessageType := 0;
+      go_requestf_ResponsePacket_IRet := 0;
+      go_requestf_ResponsePacket_SBuffer := (@nil Z);
+      go_requestf_ResponsePacket_SResultDesc := (@nil N) |} in
+    Next rspPackage.
+
+(* struct github.com/TarsCloud/TarsGo/tars/protocol/res/requestf.RequestPacket *)
+Record go_requestf_RequestPacket := { go_requestf_RequestPacket_IVersion : Z;
+  go_requestf_RequestPacket_CPacketType : Z;
+  go_requestf_RequestPacket_IMessageType : Z;
+  go_requestf_RequestPacket_IRequestId : Z;
+  go_requestf_RequestPacket_SServantName : (list N);
+  go_requestf_RequestPacket_SFuncName : (list N);
+  go_requestf_RequestPacket_SBuffer : (list Z);
+  go_requestf_RequestPacket_ITimeout : Z }.
+
+(* tars/tarsprotocol.go: func Protocol.Invoke, statements "rspPackage.IVersion = reqPackage.IVersion" .. "rspPackage.IRequestId = reqPackage.IRequestId" *)
+Definition tr_Invoke_identity (reqPackage : go_requestf_RequestPacket) (rspPackage : go_requestf_ResponsePacket) : ctl go_requestf_ResponsePacket (list N) :=
+  let rspPackage := {| go_requestf_ResponsePacket_IVersion := (go_requestf_RequestPacket_IVersion reqPackage); go_requestf_ResponsePacket_CPacketType := go_requestf_ResponsePacket_CPacketType rspPackage; go_requestf_ResponsePacket_IRequestId := go_requestf_ResponsePacket_IRequestId rspPackage; go_requestf_ResponsePacket_IMessageType := go_requestf_ResponsePacket_IMessageType rspPackage; go_requestf_ResponsePacket_IRet := go_requestf_ResponsePacket_IRet rspPackage; go_requestf_ResponsePacket_SBuffer := go_requestf_ResponsePacket_SBuffer rspPackage; go_requestf_ResponsePacket_SResultDesc := go_requestf_ResponsePacket_SResultDesc rspPackage |} in
+    let rspPackage := {| go_requestf_ResponsePacket_IVersion := go_requestf_ResponsePacket_IVersion rspPackage; go_requestf_ResponsePacket_CPacketType := go_requestf_ResponsePacket_CPacketType rspPackage; go_requestf_ResponsePacket_IRequestId := (go_requestf_RequestPacket_IRequestId reqPackage); go_requestf_ResponsePacket_IMessageType := go_requestf_ResponsePacket_IMessageType rspPackage; go_requestf_ResponsePacket_IRet := go_requestf_ResponsePacket_IRet rspPackage; go_requestf_ResponsePacket_SBuffer := go_requestf_ResponsePacket_SBuffer rspPackage; go_requestf_ResponsePacket_SResultDesc := go_requestf_ResponsePacket_SResultDesc rspPackage |} in
+    Next rspPackage.
+
+Definition k_basef_TARSSERVERQUEUETIMEOUT : Z := (-6).
+(* tars/tarsprotocol.go: func Protocol.Invoke, statements "rspPackage.IRet = basef.TARSSERVERQUEUETIMEOUT" .. "rspPackage.SResultDesc = \"server invoke timeout\"" *)
+Definition tr_Invoke_queue_timeout (rspPackage : go_requestf_ResponsePacket) : ctl go_requestf_ResponsePacket (list N) :=
+  let rspPackage := {| go_requestf_ResponsePacket_IVersion := go_requestf_ResponsePacket_IVersion rspPackage; go_requestf_ResponsePacket_CPacketType := go_requestf_ResponsePacket_CPacketType rspPackage; go_requestf_ResponsePacket_IRequestId := go_requestf_ResponsePacket_IRequestId rspPackage; go_requestf_ResponsePacket_IMessageType := go_requestf_ResponsePacket_IMessageType rspPackage; go_requestf_ResponsePacket_IRet := k_basef_TARSSERVERQUEUETIMEOUT; go_requestf_ResponsePacket_SBuffer := go_requestf_ResponsePacket_SBuffer rspPackage; go_requestf_ResponsePacket_SResultDesc := go_requestf_ResponsePacket_SResultDesc rspPackage |} in
+    let rspPackage := {| go_requestf_ResponsePacket_IVersion := go_requestf_ResponsePacket_IVersion rspPackage; go_requestf_ResponsePacket_CPacketType := go_requestf_ResponsePacket_CPacketType rspPackage; go_requestf_ResponsePacket_IRequestId := go_requestf_ResponsePacket_IRequestId rspPackage; go_requestf_ResponsePacket_IMessageType := go_requestf_ResponsePacket_IMessageType rspPackage; go_requestf_ResponsePacket_IRet := go_requestf_ResponsePacket_IRet rspPackage; go_requestf_ResponsePacket_SBuffer := go_requestf_ResponsePacket_SBuffer rspPackage; go_requestf_ResponsePacket_SResultDesc := (115%N :: (101%N :: (114%N :: (118%N :: (101%N :: (114%N :: (32%N :: (105%N :: (110%N :: (118%N :: (111%N :: (107%N :: (101%N :: (32%N :: (116%N :: (105%N :: (109%N :: (101%N :: (111%N :: (117%N :: (116%N :: (@nil N)))))))))))))))))))))) |} in
+    Next rspPackage.
+
+(* tars/tarsprotocol.go: func Protocol.Invoke, statements "rspPackage.IRet = 1" .. "if tarsErr, ok := err.(*Error); ok {" *)
+Definition tr_Invoke_error (rspPackage : go_requestf_ResponsePacket) (err_is_tars : bool) (err_text : list N) (err_code : Z) : ctl go_requestf_ResponsePacket (list N) :=
+  let rspPackage := {| go_requestf_ResponsePacket_IVersion := go_requestf_ResponsePacket_IVersion rspPackage; go_requestf_ResponsePacket_CPacketType := go_requestf_ResponsePacket_CPacketType rspPackage; go_requestf_ResponsePacket_IRequestId := go_requestf_ResponsePacket_IRequestId rspPackage; go_requestf_ResponsePacket_IMessageType := go_requestf_ResponsePacket_IMessageType rspPackage; go_requestf_ResponsePacket_IRet := 1; go_requestf_ResponsePacket_SBuffer := go_requestf_ResponsePacket_SBuffer rspPackage; go_requestf_ResponsePacket_SResultDesc := go_requestf_ResponsePacket_SResultDesc rspPackage |} in
+    let rspPackage := {| go_requestf_ResponsePacket_IVersion := go_requestf_ResponsePacket_IVersion rspPackage; go_requestf_ResponsePacket_CPacketType := go_requestf_ResponsePacket_CPacketType rspPackage; go_requestf_ResponsePacket_IRequestId := go_requestf_ResponsePacket_IRequestId rspPackage; go_requestf_ResponsePacket_IMessageType := go_requestf_ResponsePacket_IMessageType rspPackage; go_requestf_ResponsePacket_IRet := go_requestf_ResponsePacket_IRet rspPackage; go_requestf_ResponsePacket_SBuffer := go_requestf_ResponsePacket_SBuffer rspPackage; go_requestf_ResponsePacket_SResultDesc := err_text |} in
+    let ok := err_is_tars in
+    bindc (if ok
+      then let rspPackage := {| go_requestf_ResponsePacket_IVersion := go_requestf_ResponsePacket_IVersion rspPackage; go_requestf_ResponsePacket_CPacketType := go_requestf_ResponsePacket_CPacketType rspPackage; go_requestf_ResponsePacket_IRequestId := go_requestf_ResponsePacket_IRequestId rspPackage; go_requestf_ResponsePacket_IMessageType := go_requestf_ResponsePacket_IMessageType rspPackage; go_requestf_ResponsePacket_IRet := err_code; go_requestf_ResponsePacket_SBuffer := go_requestf_ResponsePacket_SBuffer rspPackage; go_requestf_ResponsePacket_SResultDesc := go_requestf_ResponsePacket_SResultDesc rspPackage |} in
+        Next rspPackage
+      else Next rspPackage)
+    (fun rspPackage : go_requestf_ResponsePacket =>
+    Next rspPackage).
+
+(* tars/tarsprotocol.go: func Protocol.Invoke, statements "rspPackage.CPacketType = reqPackage.CPacketType" .. "rspPackage.CPacketType = reqPackage.CPacketType" *)
+Definition tr_Invoke_ptype (reqPackage : go_requestf_RequestPacket) (rspPackage : go_requestf_ResponsePacket) : ctl go_requestf_ResponsePacket (list N) :=
+  let rspPackage := {| go_requestf_ResponsePacket_IVersion := go_requestf_ResponsePacket_IVersion rspPackage; go_requestf_ResponsePacket_CPacketType := (go_requestf_RequestPacket_CPacketType reqPackage); go_requestf_ResponsePacket_IRequestId := go_requestf_ResponsePacket_IRequestId rspPackage; go_requestf_ResponsePacket_IMessageType := go_requestf_ResponsePacket_IMessageType rspPackage; go_requestf_ResponsePacket_IRet := go_requestf_ResponsePacket_IRet rspPackage; go_requestf_ResponsePacket_SBuffer := go_requestf_ResponsePacket_SBuffer rspPackage; go_requestf_ResponsePacket_SResultDesc := go_requestf_ResponsePacket_SResultDesc rspPackage |} in
+    Next rspPackage.
+
+Definition k_basef_TARSONEWAY : Z := 1.
+(* tars/tarsprotocol.go: func Protocol.InvokeTimeout, statements "if reqPackage.CPacketType == basef.TARSONEWAY {" .. "rspPackage.SResultDesc = \"server invoke timeout\"" *)
+Definition tr_InvokeTimeout_fill (rspPackage : go_requestf_ResponsePacket) (reqPackage : go_requestf_RequestPacket) : ctl go_requestf_ResponsePacket (list N) :=
+  if ((go_requestf_RequestPacket_CPacketType reqPackage) =? k_basef_TARSONEWAY)
+    then Return (@nil N)
+    else let rspPackage := {| go_requestf_ResponsePacket_IVersion := (go_requestf_RequestPacket_IVersion reqPackage); go_requestf_ResponsePacket_CPacketType := go_requestf_ResponsePacket_CPacketType rspPackage; go_requestf_ResponsePacket_IRequestId := go_requestf_ResponsePacket_IRequestId rspPackage; go_requestf_ResponsePacket_IMessageType := go_requestf_ResponsePacket_IMessageType rspPackage; go_requestf_ResponsePacket_IRet := go_requestf_ResponsePacket_IRet rspPackage; go_requestf_ResponsePacket_SBuffer := go_requestf_ResponsePacket_SBuffer rspPackage; go_requestf_ResponsePacket_SResultDesc := go_requestf_ResponsePacket_SResultDesc rspPackage |} in
+    let rspPackage := {| go_requestf_ResponsePacket_IVersion := go_requestf_ResponsePacket_IVersion rspPackage; go_requestf_ResponsePacket_CPacketType := (go_requestf_RequestPacket_CPacketType reqPackage); go_requestf_ResponsePacket_IRequestId := go_requestf_ResponsePacket_IRequestId rspPackage; go_requestf_ResponsePacket_IMessageType := go_requestf_ResponsePacket_IMessageType rspPackage; go_requestf_ResponsePacket_IRet := go_requestf_ResponsePacket_IRet rspPackage; go_requestf_ResponsePacket_SBuffer := go_requestf_ResponsePacket_SBuffer rspPackage; go_requestf_ResponsePacket_SResultDesc := go_requestf_ResponsePacket_SResultDesc rspPackage |} in
+    let rspPackage := {| go_requestf_ResponsePacket_IVersion := go_requestf_ResponsePacket_IVersion rspPackage; go_requestf_ResponsePacket_CPacketType := go_requestf_ResponsePacket_CPacketType rspPackage; go_requestf_ResponsePacket_IRequestId := (go_requestf_RequestPacket_IRequestId reqPackage); go_requestf_ResponsePacket_IMessageType := go_requestf_ResponsePacket_IMessageType rspPackage; go_requestf_ResponsePacket_IRet := go_requestf_ResponsePacket_IRet rspPackage; go_requestf_ResponsePacket_SBuffer := go_requestf_ResponsePacket_SBuffer rspPackage; go_requestf_ResponsePacket_SResultDesc := go_requestf_ResponsePacket_SResultDesc rspPackage |} in
+    let rspPackage := {| go_requestf_ResponsePacket_IVersion := go_requestf_ResponsePacket_IVersion rspPackage; go_requestf_ResponsePacket_CPacketType := go_requestf_ResponsePacket_CPacketType rspPackage; go_requestf_ResponsePacket_IRequestId := go_requestf_ResponsePacket_IRequestId rspPackage; go_requestf_ResponsePacket_IMessageType := go_requestf_ResponsePacket_IMessageType rspPackage; go_requestf_ResponsePacket_IRet := 1; go_requestf_ResponsePacket_SBuffer := go_requestf_ResponsePacket_SBuffer rspPackage; go_requestf_ResponsePacket_SResultDesc := go_requestf_ResponsePacket_SResultDesc rspPackage |} in
+    let rspPackage := {| go_requestf_ResponsePacket_IVersion := go_requestf_ResponsePacket_IVersion rspPackage; go_requestf_ResponsePacket_CPacketType := go_requestf_ResponsePacket_CPacketType rspPackage; go_requestf_ResponsePacket_IRequestId := go_requestf_ResponsePacket_IRequestId rspPackage; go_requestf_ResponsePacket_IMessageType := go_requestf_ResponsePacket_IMessageType rspPackage; go_requestf_ResponsePacket_IRet := go_requestf_ResponsePacket_IRet rspPackage; go_requestf_ResponsePacket_SBuffer := go_requestf_ResponsePacket_SBuffer rspPackage; go_requestf_ResponsePacket_SResultDesc := (115%N :: (101%N :: (114%N :: (118%N :: (101%N :: (114%N :: (32%N :: (105%N :: (110%N :: (118%N :: (111%N :: (107%N :: (101%N :: (32%N :: (116%N :: (105%N :: (109%N :: (101%N :: (111%N :: (117%N :: (116%N :: (@nil N)))))))))))))))))))))) |} in
+    Next rspPackage.
+
 (* tars/transport/tarsclient.go: func connection.recv, statements "currBuffer = append(currBuffer, buffer[:n]...)" .. "for {" *)
 Definition tr_cli_recv_chunk (fuel : nat) (buffer : (list N)) (currBuffer : (list N)) (n : Z) (parse_package : list N -> Z * Z) (out : list (list N)) : ctl ((list (list N)) * (list N)) (list (list N) * unit) :=
   if (go_slice_ok buffer 0 n) then (let currBuffer := currBuffer ++ (go_slice buffer 0 n) in
